@@ -34,19 +34,18 @@ def validate(module, cfg, records, timeout=600, env=None):
             os.unlink(path)
         except OSError:
             pass
-    if res.violation:
-        m = re.search(r"REJECT\", (\d+)", res.raw_tail)
-        if "Postcondition" in res.violation or "POSTCONDITION" in res.violation or m:
-            ln = int(m.group(1)) if m else None
-            return False, ln, res.violation[:600], res
-        # an invariant failed in some state of the trace: find l in the last state
-        ls = re.findall(r"/\\ l = (\d+)", res.violation)
-        ln = int(ls[-1]) - 1 if ls else None
+    # progress lines <<"L", n>> are printed (by the worker itself) each time a new record index is reached
+    ls = [int(x) for x in re.findall(r'<<"L", (\d+)>>', res.all_out)]
+    reached = max(ls) if ls else 1
+    accepted = reached == len(records) + 1
+    if res.violation and not res.violation.startswith("Error: Postcondition"):
+        # an invariant failed in some state of the trace: the state's l is the record after the offending one
+        lv = re.findall(r"/\\ l = (\d+)", res.violation)
+        ln = int(lv[-1]) - 1 if lv else reached
         return False, ln, res.violation[:1500], res
-    m = re.search(r'REJECT", (\d+)', res.raw_tail)
-    if m:
-        return False, int(m.group(1)), "trace not accepted at record %s" % m.group(1), res
-    return True, None, "", res
+    if accepted:
+        return True, None, "", res
+    return False, reached, "trace not explained by the specification at record %d" % reached, res
 
 
 def validate_runs(module, cfg, runs, header_of, events_of, rep, describe, max_rounds=25, env=None):
